@@ -2,7 +2,9 @@
 tools/diststat.py under python3-vt).
 
 Every entry: (distribution name as understood by harness/distdrv.c, [parameters], (lo, hi, flags)) with the mathematical support
-of the distribution for these parameters; flags: i = integer valued, o = lo excluded, c = hi excluded.
+of the distribution for these parameters; flags: i = integer valued, o = lo excluded, c = hi excluded, k = no Kolmogorov-Smirnov
+test (a noticeable part of the probability mass lies below the smallest positive double and is rounded to exactly 0.0 — correctly —
+which a comparison with a continuous CDF would count as a jump; support and moments are still tested).
 Boundary values on purpose: p = 1, p = 0, probability vectors that sum to one only within the accepted tolerance, shape < 1,
 min = mode, n = 1, one-point ranges, large and tiny scales.
 `known` names the known finding (known_findings.json id) whose trigger the entry is: such entries are NOT part of the generated
@@ -61,6 +63,7 @@ def grid():
     add("std_gamma", [2.5], 0.0, INF)
     add("std_gamma", [30.0], 0.0, INF)
     add("gamma", [0.05, 2.0], 0.0, INF)                   # shape < 1: boosted in cmb_random_gamma
+    add("gamma", [0.001, 1.0], 0.0, INF, "k")             # documented on [0, oo): exactly 0.0 (47 % of the draws) is inside
     add("gamma", [0.5, 2.0], 0.0, INF)
     add("gamma", [1.0, 1.0], 0.0, INF)
     add("gamma", [7.5, 0.5], 0.0, INF)
@@ -69,6 +72,13 @@ def grid():
     add("std_beta", [1.0, 1.0], 0.0, 1.0)
     add("std_beta", [2.0, 3.0], 0.0, 1.0)
     add("std_beta", [1.0, 6.0], 0.0, 1.0)
+    # tiny shapes: both gamma variates underflow to 0.0 (0.001: 23 % of the draws, 1e-4: 86 %); the ratio is then decided in log space
+    add("std_beta", [0.01, 0.01], 0.0, 1.0, "k")
+    add("std_beta", [0.001, 0.001], 0.0, 1.0, "k")
+    add("std_beta", [0.001, 0.003], 0.0, 1.0, "k")        # asymmetric: mean 0.25
+    add("std_beta", [1e-4, 1e-4], 0.0, 1.0, "k")
+    add("std_beta", [1e-4, 2.0], 0.0, 1.0, "k")           # one side only underflows
+    add("beta", [0.001, 0.001, -1.0, 4.0], -1.0, 4.0, "k")
     add("beta", [2.0, 3.0, -1.0, 4.0], -1.0, 4.0)
     add("beta", [0.25, 3.0, -1.0, 4.0], -1.0, 4.0)
     add("PERT", [1.0, 2.0, 6.0], 1.0, 6.0)
@@ -81,13 +91,19 @@ def grid():
     add("pareto", [3.0, 2.0], 2.0, INF)
     add("pareto", [0.5, 1.0], 1.0, INF)
     add("chisquared", [0.4], 0.0, INF)                    # k/2 < 1: boosted
+    add("chisquared", [0.01], 0.0, INF, "k")
     add("chisquared", [1.0], 0.0, INF)
     add("chisquared", [3.0], 0.0, INF)
     add("chisquared", [8.0], 0.0, INF)
     add("F_dist", [3.0, 5.0], 0.0, INF)
     add("F_dist", [0.8, 6.0], 0.0, INF)
+    # degrees of freedom down to 0.1 only: below that a noticeable part of the mass of F(a, b) / t(v) lies beyond DBL_MAX
+    # (b = 0.01: P(F > DBL_MAX) is about 3 %), no double-valued sampler can follow the distribution there (notes/C16.md)
+    add("F_dist", [3.0, 0.1], 0.0, INF)
+    add("F_dist", [0.1, 3.0], 0.0, INF, "k")
     add("std_t_dist", [1.0], -INF, INF)
     add("std_t_dist", [0.5], -INF, INF)
+    add("std_t_dist", [0.1], -INF, INF)
     add("std_t_dist", [5.0], -INF, INF)
     add("t_dist", [1.0, 2.0, 6.0], -INF, INF)
     add("rayleigh", [2.0], 0.0, INF)
